@@ -16,6 +16,7 @@ import harness
 import tlc
 
 import numpy as np
+import jax
 
 
 def setup_types(hook=True):
@@ -50,6 +51,13 @@ def val_of(x, t):
 
 KEYS = {'A': ('a', 'b'), 'B': ('a', 'b'), 'D': ('x', 'y'), 'DI': (2, 10), 'L': (0, 1), 'T': (0, 1), 'NT': ('w', 'b')}
 
+RENDER = {}      # module kind -> real attribute names of this rendering (default: the specification's names)
+
+
+def real_names(k):
+  return RENDER.get(k, KEYS[k])
+
+
 import collections
 NT = collections.namedtuple('NT', ['w', 'b'])     # a generic registered pytree whose field order is not key order
 
@@ -73,7 +81,7 @@ def build_real(heap, nnx, mods, vts, reverse_dicts=False):
     if k in mods:
       x = mods[k]()
       objs[i] = x
-      for slot, key in enumerate(KEYS[k]):
+      for slot, key in enumerate(real_names(k)):
         v = o['s'][slot]
         if v > 0:
           setattr(x, key, build(v))
@@ -167,8 +175,10 @@ def canon_real(root, nnx, mods, vts, ids=None):
       if ids is not None:
         ids.add(id(x))
       i = idx[id(x)]
-      attrs = {k: v for k, v in vars(x).items() if not k.startswith('_')}
-      return (rev_m.get(type(x), type(x).__name__), i, tuple((k, rec(attrs[k])) for k in sorted(attrs)))
+      kind = rev_m.get(type(x), type(x).__name__)
+      inv = dict(zip(real_names(kind), KEYS[kind])) if kind in KEYS else {}      # real attribute names -> the specification's
+      attrs = {inv.get(k, k): v for k, v in vars(x).items() if not k.startswith('_')}
+      return (kind, i, tuple((k, rec(attrs[k])) for k in sorted(attrs)))
     if isinstance(x, NT):
       return ('NT', (('b', rec(x.b)), ('w', rec(x.w))))
     if isinstance(x, dict):
@@ -196,8 +206,8 @@ def conv_path(keys, heap):
       out.append(int(k))
       slot = KEYS['DI'].index(int(k))
     else:
-      out.append(k)
       slot = KEYS[o['k']].index(k)
+      out.append(real_names(o['k'])[slot])
     cur = o['s'][slot]
   return tuple(out)
 
@@ -214,13 +224,27 @@ def group_of_state(st, nnx, vts):
 
 
 def replay(chk, h, idx, nnx, mods, vts):
+  if idx % 4 != 3:
+    return _replay(chk, h, idx, nnx, mods, vts)
+  # rendering: the attributes of the modules are called '10' and '2' (list-like modules: decimal names whose numeric and
+  # lexicographic orders differ; same lexicographic order as the specification's a < b)
+  RENDER.update({'A': ('10', '2'), 'B': ('10', '2')})
+  try:
+    return _replay(chk, h, idx, nnx, mods, vts)
+  finally:
+    RENDER.clear()
+
+
+def _replay(chk, h, idx, nnx, mods, vts):
   built = next(e for e in h if e['op'] == 'built')
   heap = built['heap']
   sig = ';'.join(f"{o['k']}{o['s'][0]},{o['s'][1]}" + (f"v{o['val']}m{o['meta']}" if o['k'] in vts else '') for o in heap)
   root, objs = build_real(heap, nnx, mods, vts)
   key0 = f'C03:{sig}'
   rnd = random.Random(chk.seed + idx)
-  fmap = {'P': vts['P'], 'Q': vts['Q'], 'V': nnx.Variable, 'pa': nnx.PathContains('a'), 'pb': nnx.PathContains('b'), 'all': ...}
+  n1, n2 = real_names('A')
+  fmap = {'P': vts['P'], 'Q': vts['Q'], 'V': nnx.Variable, 'pa': nnx.Any(nnx.PathContains('a'), nnx.PathContains(n1)),
+          'pb': nnx.Any(nnx.PathContains('b'), nnx.PathContains(n2)), 'all': ...}
   if canon_real(root, nnx, mods, vts) != canon_model(heap):
     return key0 + ':build', 'harness: built graph differs from the specification heap (machinery)'
   for e in h:
@@ -379,6 +403,56 @@ def main(chk):
       if r[1].startswith('harness:'):
         raise tlc.TLCError(r[1])
       chk.violation(r[0], r[1], h)
+  # ---- generic registered pytrees with more than two children (the specification's objects have two slots): named tuples, ordered
+  # dicts and struct dataclasses whose declaration order is an arbitrary permutation of the key order
+  import itertools
+  import collections as _c
+  import jax.numpy as jnp
+  from flax import struct
+  rnd = random.Random(chk.seed + 77)
+  perms = [p for n in (3, 4) for p in itertools.permutations('abcd'[:n])]
+  rnd.shuffle(perms)
+  for pi, fields in enumerate(perms if thorough else perms[:14]):
+    nt = _c.namedtuple('NTk', fields)
+    dc = struct.dataclass(type('DCk', (), {'__annotations__': {f: object for f in fields}}))
+
+    def contents(off):
+      out = []
+      for j, f in enumerate(fields):
+        val = jnp.asarray(off + 10 * j, jnp.int32)
+        out.append((f, [vts['P'](val), nnx.BatchStat(val, tag='m1'), nnx.Variable(val), 'static-' + f][(j + off) % 4]))
+      return out
+
+    class Wide(nnx.Module):
+      def __init__(self):
+        self.nt = nt(**dict(contents(1)))
+        self.od = _c.OrderedDict(contents(2))
+        self.dc = dc(**dict(contents(3)))
+
+    def describe(m):
+      def d(x):
+        if isinstance(x, nnx.Variable):
+          return (type(x).__name__, int(x.value), x.get_metadata().get('tag'))
+        return x
+      return ([(f, d(getattr(m.nt, f))) for f in m.nt._fields], [(k, d(v)) for k, v in m.od.items()],
+              [(f, d(getattr(m.dc, f))) for f in fields], type(m.nt).__name__, type(m.od).__name__, type(m.dc).__name__)
+    key = 'C03:wide-pytree:' + ''.join(fields)
+    chk.count(key)
+    try:
+      m = Wide()
+      want = describe(m)
+      gdef, a, b = nnx.split(m, vts['P'], ...)
+      got = {'merge(split(g))': describe(nnx.merge(gdef, b, a)), 'clone': describe(nnx.clone(m)), 'g after split': describe(m)}
+      for name, g in got.items():
+        if g != want:
+          chk.violation(key, f'{name} is not isomorphic to g: {g} vs {want}', {'fields': fields})
+      st = nnx.state(m)
+      nnx.update(m, jax.tree_util.tree_map(lambda v: v + 100, st))
+      bumped = tuple([(f, (v[0], v[1] + 100, v[2]) if isinstance(v, tuple) else v) for f, v in part] if isinstance(part, list) else part for part in want)
+      if describe(m) != bumped:
+        chk.violation(key, f'after nnx.update(g, state + 100): {describe(m)}, expected {bumped}', {'fields': fields})
+    except Exception as e:
+      chk.violation(key, f'raised {type(e).__name__}: {str(e)[:200]}', {'fields': fields})
   chk.sample({'spec': 'NnxGraph', 'history': [{k: v for k, v in e.items() if k != 'heap'} for e in sim['exports'][0]]})
   chk.cov['behaviours_replayed'] = n
   chk.finish(rule=('heaps are built by TLC edit actions (<= 5 objects incl. shared references, self references, cycles through containers, '
